@@ -256,6 +256,18 @@ def run(ctx):
             impl.apply(dict(op))
             log.append(op)
             check_tree(ctx, out, {"history": list(log), "tree": 0, "checked_every": 1, "from": len(log) - 1}, "sort", rot, tree=impl.trees[0])
+        # ... and index access - re-key ONE node of a clone group (or a single node) - index access: what `tree[key]` found before
+        # says nothing about what it must find now
+        for _ in range(3):
+            ps = H.paths_of(impl.trees[0])
+            if not ps:
+                break
+            op = {"op": "w.setdata", "t": 0, "n": ctx.rng.choice(ps), "a": ctx.rng.choice(NAMES), "clones": False}
+            if ctx.rng.random() < 0.4:
+                op["did"] = ctx.rng.choice(["A", "a1", 7, ""])
+            impl.apply(dict(op))
+            log.append(op)
+            check_tree(ctx, out, {"history": list(log), "tree": 0, "checked_every": 1, "from": len(log) - 1}, "rekey", rot, tree=impl.trees[0])
         out.dist["search_sort_search"] += 1
     # trees REACHED through mutation histories (re-keyed nodes, removed clones, explicit ids that are also the data of other
     # nodes): searches and index access must follow from the tree as it is now, not from what an index once held
